@@ -441,3 +441,221 @@ Proof.
       exact H3.
     + intros q Hq. rewrite occurs_at_prefix by lia. rewrite (H4 (q - 1)) by lia. discriminate.
 Qed.
+
+(* ------------------------------------------------- EXACT and CONCATENATE *)
+Lemma str_eqb_eq a b : str_eqb a b = true <-> a = b.
+Proof.
+  revert b. induction a as [|x a IH]; intros [|y b]; cbn [str_eqb]; try (split; congruence).
+  rewrite andb_true_iff, Z.eqb_eq, IH. split.
+  - intros [-> ->]. reflexivity.
+  - intros [= -> ->]. split; reflexivity.
+Qed.
+
+Lemma str_eqb_refl_true a : str_eqb a a = true.
+Proof. induction a as [|x a IH]; [reflexivity|]. cbn [str_eqb]. rewrite Z.eqb_refl, IH. reflexivity. Qed.
+
+Lemma exact_spec a b : not_code a -> not_code b ->
+  exists r, X_exact [VStr a; VStr b] = Ok (VBool r) /\ (r = true <-> a = b).
+Proof.
+  intros Ha Hb. exists (str_eqb a b). split; [|apply str_eqb_eq].
+  unfold X_exact. wrap_run. unfold text.f_exact. py_run.
+  destruct (str_eqb a b); reflexivity.
+Qed.
+
+Lemma concatenate_spec a b : not_code a -> not_code b ->
+  X_concatenate [VStr a; VStr b] = Ok (VStr (a ++ b)).
+Proof.
+  intros Ha Hb. unfold X_concatenate. cbn [forallb is_scalar andb negb].
+  unfold text.f_concatenate. py_run. cbn [py_tuple py_iter bind]. py_run.
+  rewrite !str_eqb_refl_true. py_run.
+  cbn [gen_next bind]. rewrite (in_codes_false a Ha). cbn [gen_next bind].
+  rewrite (in_codes_false b Hb). cbn [gen_next bind]. py_run.
+  cbn [genexp bind]. rewrite !coerce_str_text. cbn [bind str_join py_iter join_strs].
+  rewrite app_nil_l. reflexivity.
+Qed.
+
+(* ------------------------------------------------------------------- TRIM *)
+Fixpoint no_adjacent_spaces (s : str) : Prop :=
+  match s with
+  | c :: s' => match s' with
+               | d :: _ => ~ (c = 32 /\ d = 32)
+               | [] => True
+               end /\ no_adjacent_spaces s'
+  | [] => True
+  end.
+
+Lemma squeeze_head c s :
+  exists t, squeeze_spaces (c :: s) = c :: t.
+Proof.
+  revert c. induction s as [|d s IH]; intros c.
+  - cbn. rewrite andb_false_r. eauto.
+  - cbn [squeeze_spaces]. destruct ((c =? 32) && (d =? 32)) eqn:E.
+    + apply andb_true_iff in E. destruct E as [E1 E2].
+      apply Z.eqb_eq in E1. apply Z.eqb_eq in E2. subst c d. apply IH.
+    + eauto.
+Qed.
+
+Lemma squeeze_no_adjacent s : no_adjacent_spaces (squeeze_spaces s).
+Proof.
+  induction s as [|c s IH]; [exact I|].
+  cbn [squeeze_spaces]. destruct s as [|d s].
+  - rewrite andb_false_r. cbn. auto.
+  - destruct ((c =? 32) && (d =? 32)) eqn:E; [exact IH|].
+    destruct (squeeze_head d s) as (t & Ht). rewrite Ht in *.
+    cbn [no_adjacent_spaces]. split; [|exact IH].
+    intros [-> ->]. discriminate.
+Qed.
+
+Lemma squeeze_fixed s : no_adjacent_spaces s -> squeeze_spaces s = s.
+Proof.
+  induction s as [|c s IH]; [reflexivity|].
+  cbn [no_adjacent_spaces squeeze_spaces]. intros [H1 H2]. destruct s as [|d s].
+  - rewrite andb_false_r. reflexivity.
+  - destruct (Z.eqb_spec c 32) as [->|]; destruct (Z.eqb_spec d 32) as [->|]; cbn [andb];
+      try (f_equal; apply IH; exact H2).
+    exfalso. apply H1. split; reflexivity.
+Qed.
+
+Lemma squeeze_idempotent s : squeeze_spaces (squeeze_spaces s) = squeeze_spaces s.
+Proof. apply squeeze_fixed, squeeze_no_adjacent. Qed.
+
+(* the other characters are untouched, in order *)
+Lemma squeeze_keeps_nonspaces s :
+  filter (fun c => negb (c =? 32)) (squeeze_spaces s) = filter (fun c => negb (c =? 32)) s.
+Proof.
+  induction s as [|c s IH]; [reflexivity|].
+  cbn [squeeze_spaces]. destruct ((c =? 32) && _) eqn:E.
+  - apply andb_true_iff in E. destruct E as [E _]. cbn [filter]. rewrite E. cbn [negb]. exact IH.
+  - cbn [filter]. rewrite IH. reflexivity.
+Qed.
+
+Lemma squeeze_not_code s : not_code s -> not_code (squeeze_spaces s).
+Proof.
+  induction s as [|c s IH]; [auto|]. intros H.
+  cbn [squeeze_spaces]. destruct ((c =? 32) && _) eqn:E.
+  - apply IH. destruct s as [|d s]; [exact I|].
+    apply andb_true_iff in E. destruct E as [_ E]. apply Z.eqb_eq in E. subst d. exact I.
+  - exact H.
+Qed.
+
+Lemma trim_eval s : not_code s -> X_trim [VStr s] = Ok (VStr (squeeze_spaces s)).
+Proof. intros H. unfold X_trim. wrap_run. reflexivity. Qed.
+
+Lemma trim_partial s : not_code s ->
+  exists t, X_trim [VStr s] = Ok (VStr t) /\ no_adjacent_spaces t
+            /\ filter (fun c => negb (c =? 32)) t = filter (fun c => negb (c =? 32)) s
+            /\ X_trim [VStr t] = Ok (VStr t).
+Proof.
+  intros H. exists (squeeze_spaces s). split; [apply trim_eval; exact H|].
+  split; [apply squeeze_no_adjacent|]. split; [apply squeeze_keeps_nonspaces|].
+  rewrite trim_eval by (apply squeeze_not_code; exact H). rewrite squeeze_idempotent. reflexivity.
+Qed.
+
+(* ------------------------------------------------------------ UPPER / LOWER *)
+Ltac no_if t := lazymatch t with context [if _ then _ else _] => fail | _ => idtac end.
+Ltac zbool :=
+  repeat (match goal with
+  | |- context [?a <=? ?b] => no_if a; no_if b; destruct (Z.leb_spec a b)
+  | |- context [?a <? ?b] => no_if a; no_if b; destruct (Z.ltb_spec a b)
+  | |- context [?a =? ?b] => no_if a; no_if b; destruct (Z.eqb_spec a b)
+  | _ => progress cbn [andb orb negb]
+  end; try lia); try reflexivity; try discriminate.
+
+Lemma ascii_upper_idem c : ascii_upper (ascii_upper c) = ascii_upper c.
+Proof. unfold ascii_upper. zbool. Qed.
+Lemma ascii_lower_idem c : ascii_lower (ascii_lower c) = ascii_lower c.
+Proof. unfold ascii_lower. zbool. Qed.
+Lemma ascii_upper_small c : (127 <? c) = false -> (127 <? ascii_upper c) = false.
+Proof. unfold ascii_upper. intros H. apply Z.ltb_ge in H. zbool. Qed.
+Lemma ascii_lower_small c : (127 <? c) = false -> (127 <? ascii_lower c) = false.
+Proof. unfold ascii_lower. intros H. apply Z.ltb_ge in H. zbool. Qed.
+
+Lemma uni_upper_idem c : uni_upper (uni_upper c) = uni_upper c.
+Proof. unfold uni_upper, ascii_upper. zbool. Qed.
+Lemma uni_lower_idem c : uni_lower (uni_lower c) = uni_lower c.
+Proof. unfold uni_lower, ascii_lower. zbool. Qed.
+Lemma uni_upper_known c : case_known c = true -> case_known (uni_upper c) = true.
+Proof. unfold case_known, uni_upper, ascii_upper. intros H. revert H. zbool. Qed.
+Lemma uni_lower_known c : case_known c = true -> case_known (uni_lower c) = true.
+Proof. unfold case_known, uni_lower, ascii_lower. intros H. revert H. zbool. Qed.
+Lemma uni_upper_big c : (127 <? c) = true -> (127 <? uni_upper c) = true.
+Proof. unfold uni_upper, ascii_upper. intros H. apply Z.ltb_lt in H. zbool. Qed.
+Lemma uni_lower_big c : (127 <? c) = true -> (127 <? uni_lower c) = true.
+Proof. unfold uni_lower, ascii_lower. intros H. apply Z.ltb_lt in H. zbool. Qed.
+Lemma upper_not_hash c : c <> 35 -> ascii_upper c <> 35 /\ uni_upper c <> 35.
+Proof. unfold uni_upper, ascii_upper. intros H. split; zbool. Qed.
+Lemma lower_not_hash c : c <> 35 -> ascii_lower c <> 35 /\ uni_lower c <> 35.
+Proof. unfold uni_lower, ascii_lower. intros H. split; zbool. Qed.
+
+Lemma non_ascii_map_small f s : (forall c, (127 <? c) = false -> (127 <? f c) = false) ->
+  non_ascii s = false -> non_ascii (map f s) = false.
+Proof.
+  intros Hf. unfold non_ascii. induction s as [|c s IH]; [reflexivity|].
+  cbn [existsb map]. rewrite !orb_false_iff. intros [H1 H2]. split; [apply Hf; exact H1|apply IH; exact H2].
+Qed.
+Lemma non_ascii_map_big f s : (forall c, (127 <? c) = true -> (127 <? f c) = true) ->
+  non_ascii s = true -> non_ascii (map f s) = true.
+Proof.
+  intros Hf. unfold non_ascii. induction s as [|c s IH]; [discriminate|].
+  cbn [existsb map]. rewrite !orb_true_iff. intros [H|H]; [left; apply Hf; exact H|right; apply IH; exact H].
+Qed.
+Lemma case_ok_map f s : (forall c, case_known c = true -> case_known (f c) = true) ->
+  case_ok s = true -> case_ok (map f s) = true.
+Proof.
+  intros Hf. unfold case_ok. induction s as [|c s IH]; [reflexivity|].
+  cbn [forallb map]. rewrite !andb_true_iff. intros [H1 H2]. split; [apply Hf; exact H1|apply IH; exact H2].
+Qed.
+Lemma map_idem (f : Z -> Z) s : (forall c, f (f c) = f c) -> map f (map f s) = map f s.
+Proof. intros Hf. rewrite map_map. apply map_ext. exact Hf. Qed.
+Lemma not_code_map f s : (forall c, c <> 35 -> f c <> 35) -> not_code s -> not_code (map f s).
+Proof.
+  intros Hf. destruct s as [|c s]; [auto|]. cbn [map not_code]. intros H.
+  destruct (Z.eq_dec c 35) as [->|Hne]; [contradiction|].
+  specialize (Hf c Hne). destruct (f c) as [|p|p]; try exact I.
+  repeat (destruct p as [p|p|]; try exact I). contradiction.
+Qed.
+
+Lemma upper_eval s : not_code s -> X_upper [VStr s] = str_upper (VStr s).
+Proof. intros H. unfold X_upper. wrap_run. reflexivity. Qed.
+Lemma lower_eval s : not_code s -> X_lower [VStr s] = str_lower (VStr s).
+Proof. intros H. unfold X_lower. wrap_run. reflexivity. Qed.
+
+Lemma upper_idempotent s u : not_code s ->
+  X_upper [VStr s] = Ok (VStr u) -> X_upper [VStr u] = Ok (VStr u).
+Proof.
+  intros H. rewrite upper_eval by exact H. cbn [str_upper].
+  destruct (non_ascii s) eqn:E.
+  - destruct (case_ok s) eqn:E2; [|discriminate]. intros [= <-].
+    rewrite upper_eval by (apply not_code_map; [intros c Hc; apply upper_not_hash; exact Hc|exact H]).
+    cbn [str_upper]. rewrite (non_ascii_map_big _ _ uni_upper_big E).
+    rewrite (case_ok_map _ _ uni_upper_known E2).
+    rewrite (map_idem _ _ uni_upper_idem). reflexivity.
+  - intros [= <-].
+    rewrite upper_eval by (apply not_code_map; [intros c Hc; apply upper_not_hash; exact Hc|exact H]).
+    cbn [str_upper]. rewrite (non_ascii_map_small _ _ ascii_upper_small E).
+    rewrite (map_idem _ _ ascii_upper_idem). reflexivity.
+Qed.
+
+Lemma lower_idempotent s u : not_code s ->
+  X_lower [VStr s] = Ok (VStr u) -> X_lower [VStr u] = Ok (VStr u).
+Proof.
+  intros H. rewrite lower_eval by exact H. cbn [str_lower].
+  destruct (non_ascii s) eqn:E.
+  - destruct (case_ok s) eqn:E2; [|discriminate]. intros [= <-].
+    rewrite lower_eval by (apply not_code_map; [intros c Hc; apply lower_not_hash; exact Hc|exact H]).
+    cbn [str_lower]. rewrite (non_ascii_map_big _ _ uni_lower_big E).
+    rewrite (case_ok_map _ _ uni_lower_known E2).
+    rewrite (map_idem _ _ uni_lower_idem). reflexivity.
+  - intros [= <-].
+    rewrite lower_eval by (apply not_code_map; [intros c Hc; apply lower_not_hash; exact Hc|exact H]).
+    cbn [str_lower]. rewrite (non_ascii_map_small _ _ ascii_lower_small E).
+    rewrite (map_idem _ _ ascii_lower_idem). reflexivity.
+Qed.
+
+(* on ASCII text the functions are total, so idempotence is unconditional there *)
+Lemma upper_ascii_total s : not_code s -> non_ascii s = false ->
+  X_upper [VStr s] = Ok (VStr (map ascii_upper s)).
+Proof. intros H E. rewrite upper_eval by exact H. cbn [str_upper]. rewrite E. reflexivity. Qed.
+Lemma lower_ascii_total s : not_code s -> non_ascii s = false ->
+  X_lower [VStr s] = Ok (VStr (map ascii_lower s)).
+Proof. intros H E. rewrite lower_eval by exact H. cbn [str_lower]. rewrite E. reflexivity. Qed.
